@@ -51,6 +51,8 @@ def shards(tier):
             out.append({"part": "one", "kind": kind, "tier": tier, "n": n, "first": None})
     # strings that differ only in a trailing NUL (fixed-width NumPy strings cannot tell them apart)
     out.append({"part": "one", "kind": "str", "tier": tier, "n": 3, "first": None, "alpha": [None, "a", "a\x00", "b"]})
+    # object keys whose order as text differs from their order as values (10 < 2 and -3 > -20 as text)
+    out.append({"part": "one", "kind": "obj", "tier": tier, "n": 3, "first": None, "alpha": [None, 2, 10, -3, -20]})
     for k1 in KINDS:
         for k2 in KINDS:
             out.append({"part": "two", "kinds": [k1, k2], "n": 4 if big else 3})
